@@ -94,6 +94,20 @@ def estimate_events(prog, loop_h, horizon, u):
     return cnt(0)
 
 
+FAIL_KINDS = ["runtime", "value", "key", "custom", "base", "keyint", "noargs"]
+
+
+def maybe_fail_construct(case: dict, rng: random.Random, i: int, every: int = 29) -> dict:
+    """a small share of the cases: construct_model raises at some point of its body, so initialize is aborted
+    (exception escapes, simulator not initialised, run thread alive, nothing notified)"""
+    if i % every == 11 and not case.get("freetime"):
+        body = case["prog"][0]
+        body.insert(rng.randint(0, len(body)), ["fail", rng.choice(FAIL_KINDS)])
+        if rng.random() < 0.5 and len(case["cmds"]) < 8:
+            case["cmds"] = case["cmds"] + [case["cmds"][0], ["start"], ["cleanup"]][:rng.randint(1, 3)]
+    return case
+
+
 def gen_repl(rng: random.Random, clock: str, horizon=64):
     u = unit_of(clock)
     start = rng.choice([0, 0, 0, 2 * u, 8 * u]) if clock != "int" else rng.choice([0, 0, 8])
@@ -183,12 +197,21 @@ def c_action(a):
     raise ValueError(a)
 
 
-def representable(obs: dict) -> str | None:
-    """None if the observation can be written as a Coq expectation, else why not."""
+def construct_fails(case: dict) -> bool:
+    """construct_model (handler 0) raises: every accepted initialize of this case is aborted"""
+    return bool(case) and any(a[0] == "fail" for a in case["prog"][0])
+
+
+def representable(obs: dict, case: dict | None = None) -> str | None:
+    """None if the observation can be written as a Coq expectation, else why not.  An exception out of
+    initialize is representable (ResRaised) when the case's construct_model raises."""
     if "error" in obs:
         return "driver error: " + obs["error"]
-    for sn in obs["snaps"]:
-        if sn[0] not in ("ok", "refused"):
+    for j, sn in enumerate(obs["snaps"]):
+        if isinstance(sn[0], str) and sn[0].startswith("exc:") and case is not None and construct_fails(case) \
+                and j < len(case["cmds"]) and case["cmds"][j][0] == "init":
+            pass
+        elif sn[0] not in ("ok", "refused"):
             return f"command outcome {sn[0]}"
         if sn[1] not in RS or sn[2] not in PS or not isinstance(sn[3], int):
             return f"snapshot {sn}"
@@ -227,7 +250,8 @@ def log_insane(obs: dict) -> str | None:
 
 
 def c_expect(obs: dict) -> str:
-    snaps = C.clist(f"mkSnap {'ResOk' if s[0] == 'ok' else 'ResRefused'} {RS[s[1]]} {PS[s[2]]} {C.cz(s[3])} {C.cnat(s[4])}"
+    res = lambda r: "ResOk" if r == "ok" else ("ResRaised" if r.startswith("exc:") else "ResRefused")
+    snaps = C.clist(f"mkSnap {res(s[0])} {RS[s[1]]} {PS[s[2]]} {C.cz(s[3])} {C.cnat(s[4])}"
                     for s in obs["snaps"])
     trace = C.clist(f"({C.cnat(k)}, {C.cz(t)})" for k, t in obs["trace"])
     outs = C.clist({"acc": "OAccepted", "ref": "ORefused", "cmdok": "OCmdOk", "cmdref": "OCmdRefused"}[o]
@@ -259,7 +283,7 @@ def coq_compare(pid: str, cases: list[dict], obs: list[dict], shard: int = 250):
     codes = [0] * len(cases)
     idxs = []
     for i, o in enumerate(obs):
-        if representable(o) is None and model_covers(cases[i]):
+        if representable(o, cases[i]) is None and model_covers(cases[i]):
             idxs.append(i)
         else:
             codes[i] = 3
